@@ -1,0 +1,281 @@
+//go:build verif
+
+package ledger
+
+// Contracts for the deductive checks in /verif (tool: govc). Comment-only; compiled only with
+// the build tag `verif`. Spec functions live in /verif/spec/ledger.spec.
+
+//@ func (m *memItems[T]) appendRemovedKey(key)
+//@   nopanic
+//@   requires m != nil
+//@   modifies m.removedKeys, elems(m.removedKeys)
+//@   allocates LedgerKeyList
+//@   ensures len(m.removedKeys) == old(len(m.removedKeys)) + 1                                     [C18]
+//@   ensures arr(m.removedKeys) == old(arr(m.removedKeys)) || fresh(m.removedKeys)                 [C18]
+//@   ensures m.removedKeys[old(len(m.removedKeys))] == key                                         [C18]
+//@   ensures forall i :: 0 <= i && i < old(len(m.removedKeys)) ==> m.removedKeys[i] == old(m.removedKeys[i])   [C18]
+
+//@ func (m *memItems[T]) isRemovedKey(key)
+//@   pure
+//@   nopanic
+//@   requires m != nil
+//@   ensures result == in_removed(m, key)                                                           [C18]
+//@   loop 0: invariant forall i :: 0 <= i && i <= rangeindex ==> m.removedKeys[i] != key
+
+//@ func (m *memItems[T]) setGotItem(item)
+//@   nopanic
+//@   requires m != nil && m.gotItems != nil && item != nil
+//@   modifies mapof(m.gotItems)
+//@   ensures has(m.gotItems, itemkey[item]) && m.gotItems[itemkey[item]] == item                    [C18]
+//@   ensures forall k :: k != itemkey[item] ==> has(m.gotItems, k) == old(has(m.gotItems, k)) && m.gotItems[k] == old(m.gotItems[k])   [C18]
+
+//@ func (m *memItems[T]) setUpdatedItem(item)
+//@   nopanic
+//@   requires m != nil && m.updatedItems != nil && item != nil
+//@   modifies mapof(m.updatedItems)
+//@   ensures has(m.updatedItems, itemkey[item]) && m.updatedItems[itemkey[item]] == item            [C18]
+//@   ensures forall k :: k != itemkey[item] ==> has(m.updatedItems, k) == old(has(m.updatedItems, k)) && m.updatedItems[k] == old(m.updatedItems[k])   [C18]
+
+//@ func (m *memItems[T]) getGotItem(key)
+//@   pure
+//@   nopanic
+//@   requires m != nil
+//@   ensures result1 == has(m.gotItems, key)                                                        [C18]
+//@   ensures result1 ==> result0 == m.gotItems[key]                                                 [C18]
+//@   ensures !result1 ==> result0 == nil                                                            [C18]
+
+//@ func (m *memItems[T]) getUpdatedItem(key)
+//@   pure
+//@   nopanic
+//@   requires m != nil
+//@   ensures result1 == has(m.updatedItems, key)                                                    [C18]
+//@   ensures result1 ==> result0 == m.updatedItems[key]                                             [C18]
+//@   ensures !result1 ==> result0 == nil                                                            [C18]
+
+//@ func (m *memItems[T]) delGotItem(key)
+//@   nopanic
+//@   requires m != nil
+//@   modifies mapof(m.gotItems)
+//@   ensures !has(m.gotItems, key)                                                                  [C18]
+//@   ensures old(has(m.gotItems, key)) ==> result == old(m.gotItems[key])                           [C18]
+//@   ensures !old(has(m.gotItems, key)) ==> result == nil                                           [C18]
+//@   ensures forall k :: k != key ==> has(m.gotItems, k) == old(has(m.gotItems, k)) && m.gotItems[k] == old(m.gotItems[k])   [C18]
+
+//@ func (m *memItems[T]) delUpdatedItem(key)
+//@   nopanic
+//@   requires m != nil
+//@   modifies mapof(m.updatedItems)
+//@   ensures !has(m.updatedItems, key)                                                              [C18]
+//@   ensures old(has(m.updatedItems, key)) ==> result == old(m.updatedItems[key])                   [C18]
+//@   ensures !old(has(m.updatedItems, key)) ==> result == nil                                       [C18]
+//@   ensures forall k :: k != key ==> has(m.updatedItems, k) == old(has(m.updatedItems, k)) && m.updatedItems[k] == old(m.updatedItems[k])   [C18]
+
+//@ func (m *memItems[T]) delRemovedKey(key)
+//@   nopanic
+//@   requires m != nil
+//@   modifies m.removedKeys, elems(m.removedKeys)
+//@   ensures !old(in_removed(m, key)) ==> m.removedKeys == old(m.removedKeys) && (forall i :: 0 <= i && i < len(m.removedKeys) ==> m.removedKeys[i] == old(m.removedKeys[i]))   [C18]
+//@   ensures old(in_removed(m, key)) ==> len(m.removedKeys) == old(len(m.removedKeys)) - 1                  [C18]
+//@   ensures old(in_removed(m, key)) ==> (exists p :: 0 <= p && p < old(len(m.removedKeys)) && old(m.removedKeys[p]) == key &&
+//@           (forall i :: 0 <= i && i < p ==> m.removedKeys[i] == old(m.removedKeys[i]) && m.removedKeys[i] != key) &&
+//@           (forall i :: p <= i && i < len(m.removedKeys) ==> m.removedKeys[i] == old(m.removedKeys[i + 1])))   [C18]
+//@   loop 0: invariant m.removedKeys == old(m.removedKeys)
+//@   loop 0: invariant forall i :: 0 <= i && i < len(m.removedKeys) ==> m.removedKeys[i] == old(m.removedKeys[i])
+//@   loop 0: invariant forall i :: 0 <= i && i <= rangeindex ==> m.removedKeys[i] != key
+
+//@ func (m *memItems[T]) reset()
+//@   nopanic
+//@   requires m != nil
+//@   modifies m.gotItems, m.updatedItems, m.removedKeys
+//@   ensures wf_mem(m) && fresh(m.gotItems) && fresh(m.updatedItems)                                        [C18]
+//@   ensures (forall k :: !has(m.gotItems, k)) && (forall k :: !has(m.updatedItems, k)) && m.removedKeys == nil   [C18,C06]
+
+//@ func (m *memItems[T]) refresh()
+//@   nopanic
+//@   requires wf_mem(m)
+//@   modifies m.updatedItems, m.removedKeys, mapof(m.gotItems)
+//@   ensures wf_mem(m) && fresh(m.updatedItems) && m.gotItems == old(m.gotItems)                            [C18]
+//@   ensures (forall k :: !has(m.updatedItems, k)) && m.removedKeys == nil                                  [C18]
+//@   ensures forall k :: old(has(m.updatedItems, k)) ==> has(m.gotItems, k) && m.gotItems[k] == old(m.updatedItems[k])   [C18]
+//@   ensures forall k :: !old(has(m.updatedItems, k)) ==> has(m.gotItems, k) == old(has(m.gotItems, k)) && m.gotItems[k] == old(m.gotItems[k])   [C18]
+//@   loop 0: modifies mapof(m.gotItems)
+//@   loop 0: invariant forall k :: visited(k) ==> has(m.gotItems, k) && m.gotItems[k] == m.updatedItems[k]
+//@   loop 0: invariant forall k :: !visited(k) ==> has(m.gotItems, k) == old(has(m.gotItems, k)) && m.gotItems[k] == old(m.gotItems[k])
+//@   loop 0: invariant forall k :: visited(k) ==> has(m.updatedItems, k)
+
+// ---- SimpleLedger: the mempool (POOL) overlay over the last committed tree --------------------
+
+//@ func (ledger *SimpleLedger[T]) getNewItem()
+//@   trusted
+//@   ensures result != nil && fresh(result)
+
+//@ func (ledger *SimpleLedger[T]) read(key)
+//@   nopanic
+//@   requires ledger != nil && ledger.tree != nil
+//@   modifies itemkey, itemenc
+//@   ensures items_same()                                                                                  [C18]
+//@   ensures result1 == nil ==> result0 != nil && fresh(result0) && treehas[ledger.tree][bytesof(key)] &&
+//@           itemenc[result0] == treeval[ledger.tree][bytesof(key)] && itemkey[result0] == key               [C18,C19]
+//@   ensures result1 != nil ==> result0 == nil                                                              [C18]
+//@   ensures !treehas[ledger.tree][bytesof(key)] ==> result1 != nil                                         [C18,C19]
+
+//@ func (ledger *SimpleLedger[T]) Read(key)
+//@   sameas (*SimpleLedger).read
+
+//@ func (ledger *SimpleLedger[T]) get(key)
+//@   nopanic
+//@   requires wf_simple(ledger) && keyed(ledger.cachedItems)
+//@   modifies mapof(ledger.cachedItems.gotItems), itemkey, itemenc
+//@   ensures items_same() && keyed(ledger.cachedItems)                                                     [C18]
+//@   ensures forall k :: has(ledger.cachedItems.updatedItems, k) == old(has(ledger.cachedItems.updatedItems, k)) && ledger.cachedItems.updatedItems[k] == old(ledger.cachedItems.updatedItems[k])   [C18]
+//@   ensures forall k :: k != key ==> has(ledger.cachedItems.gotItems, k) == old(has(ledger.cachedItems.gotItems, k)) && ledger.cachedItems.gotItems[k] == old(ledger.cachedItems.gotItems[k])   [C18]
+//@   ensures old(has(ledger.cachedItems.updatedItems, key)) && old(upd_in_got(ledger.cachedItems)) ==> result1 == nil && result0 == old(ledger.cachedItems.updatedItems[key])   [C18]
+//@   ensures !old(has(ledger.cachedItems.updatedItems, key)) && in_removed(ledger.cachedItems, key) ==> result1 == xerrors.ErrNotFoundResult && result0 == nil   [C18]
+//@   ensures !in_removed(ledger.cachedItems, key) && old(has(ledger.cachedItems.gotItems, key)) ==> result1 == nil && result0 == old(ledger.cachedItems.gotItems[key])   [C18]
+//@   ensures !in_removed(ledger.cachedItems, key) && !old(has(ledger.cachedItems.gotItems, key)) && result1 == nil ==>
+//@           fresh(result0) && itemenc[result0] == treeval[ledger.tree][bytesof(key)] && treehas[ledger.tree][bytesof(key)] &&
+//@           has(ledger.cachedItems.gotItems, key) && ledger.cachedItems.gotItems[key] == result0           [C18]
+//@   ensures !in_removed(ledger.cachedItems, key) && !old(has(ledger.cachedItems.gotItems, key)) && !treehas[ledger.tree][bytesof(key)] ==> result1 != nil   [C18]
+//@   ensures result1 != nil ==> result0 == nil && (forall k :: has(ledger.cachedItems.gotItems, k) == old(has(ledger.cachedItems.gotItems, k)))   [C18]
+//@   ensures result1 == nil ==> result0 != nil && itemkey[result0] == key                                    [C18]
+
+//@ func (ledger *SimpleLedger[T]) Get(key)
+//@   sameas (*SimpleLedger).get
+
+//@ func (ledger *SimpleLedger[T]) Set(item)
+//@   nopanic
+//@   requires wf_simple(ledger) && item != nil
+//@   modifies mapof(ledger.cachedItems.gotItems), mapof(ledger.cachedItems.updatedItems)
+//@   ensures result == nil                                                                                  [C18]
+//@   ensures has(ledger.cachedItems.updatedItems, itemkey[item]) && ledger.cachedItems.updatedItems[itemkey[item]] == item   [C18]
+//@   ensures has(ledger.cachedItems.gotItems, itemkey[item]) && ledger.cachedItems.gotItems[itemkey[item]] == item           [C18]
+//@   ensures others_same(ledger.cachedItems, itemkey[item])                                                 [C18]
+
+//@ func (ledger *SimpleLedger[T]) CancelSet(key)
+//@   nopanic
+//@   requires wf_simple(ledger)
+//@   modifies mapof(ledger.cachedItems.gotItems), mapof(ledger.cachedItems.updatedItems)
+//@   ensures result == nil && !has(ledger.cachedItems.updatedItems, key) && !has(ledger.cachedItems.gotItems, key)   [C18]
+//@   ensures others_same(ledger.cachedItems, key)                                                           [C18]
+
+//@ func (ledger *SimpleLedger[T]) del(key)
+//@   nopanic
+//@   requires wf_simple(ledger) && keyed(ledger.cachedItems)
+//@   modifies mapof(ledger.cachedItems.gotItems), mapof(ledger.cachedItems.updatedItems), ledger.cachedItems.removedKeys, elems(ledger.cachedItems.removedKeys), itemkey, itemenc
+//@   allocates LedgerKeyList
+//@   ensures items_same() && others_same(ledger.cachedItems, key)                                           [C18]
+//@   ensures arr(ledger.cachedItems.removedKeys) == old(arr(ledger.cachedItems.removedKeys)) || fresh(ledger.cachedItems.removedKeys)   [C18]
+//@   ensures result1 == nil ==> result0 != nil && !has(ledger.cachedItems.gotItems, key) && !has(ledger.cachedItems.updatedItems, key) && in_removed(ledger.cachedItems, key)   [C18]
+//@   ensures result1 == nil ==> len(ledger.cachedItems.removedKeys) == old(len(ledger.cachedItems.removedKeys)) + 1 &&
+//@           (forall i :: 0 <= i && i < old(len(ledger.cachedItems.removedKeys)) ==> ledger.cachedItems.removedKeys[i] == old(ledger.cachedItems.removedKeys[i]))   [C18]
+//@   ensures result1 != nil ==> result0 == nil && removed_same(ledger.cachedItems) && (forall k :: has(ledger.cachedItems.updatedItems, k) == old(has(ledger.cachedItems.updatedItems, k)) && has(ledger.cachedItems.gotItems, k) == old(has(ledger.cachedItems.gotItems, k)))   [C18]
+
+//@ func (ledger *SimpleLedger[T]) Del(key)
+//@   sameas (*SimpleLedger).del
+
+//@ func (ledger *SimpleLedger[T]) CancelDel(key)
+//@   nopanic
+//@   requires wf_simple(ledger)
+//@   modifies ledger.cachedItems.removedKeys, elems(ledger.cachedItems.removedKeys)
+//@   ensures result == nil                                                                                  [C18]
+//@   ensures !old(in_removed(ledger.cachedItems, key)) ==> removed_same(ledger.cachedItems)                 [C18]
+//@   ensures old(in_removed(ledger.cachedItems, key)) ==> len(ledger.cachedItems.removedKeys) == old(len(ledger.cachedItems.removedKeys)) - 1   [C18]
+
+//@ func (ledger *SimpleLedger[T]) Version()
+//@   pure
+//@   nopanic
+//@   requires ledger != nil && ledger.tree != nil
+//@   ensures result == treever[ledger.tree]                                                                 [C18]
+
+// ---- FinalityLedger: the consensus (CONS) overlay; Commit writes it to the tree ------------------
+
+//@ func (ledger *FinalityLedger[T]) getFinality(key)
+//@   nopanic
+//@   requires wf_final(ledger) && keyed(ledger.finalityItems)
+//@   modifies mapof(ledger.finalityItems.gotItems), itemkey, itemenc
+//@   ensures items_same() && keyed(ledger.finalityItems)                                                   [C18]
+//@   ensures forall k :: has(ledger.finalityItems.updatedItems, k) == old(has(ledger.finalityItems.updatedItems, k)) && ledger.finalityItems.updatedItems[k] == old(ledger.finalityItems.updatedItems[k])   [C18]
+//@   ensures forall k :: k != key ==> has(ledger.finalityItems.gotItems, k) == old(has(ledger.finalityItems.gotItems, k)) && ledger.finalityItems.gotItems[k] == old(ledger.finalityItems.gotItems[k])   [C18]
+//@   ensures old(has(ledger.finalityItems.updatedItems, key)) && old(upd_in_got(ledger.finalityItems)) ==> result1 == nil && result0 == old(ledger.finalityItems.updatedItems[key])   [C18]
+//@   ensures !old(has(ledger.finalityItems.updatedItems, key)) && in_removed(ledger.finalityItems, key) ==> result1 == xerrors.ErrNotFoundResult && result0 == nil   [C18]
+//@   ensures !in_removed(ledger.finalityItems, key) && old(has(ledger.finalityItems.gotItems, key)) ==> result1 == nil && result0 == old(ledger.finalityItems.gotItems[key])   [C18]
+//@   ensures !in_removed(ledger.finalityItems, key) && !old(has(ledger.finalityItems.gotItems, key)) && result1 == nil ==>
+//@           fresh(result0) && itemenc[result0] == treeval[ledger.SimpleLedger.tree][bytesof(key)] && treehas[ledger.SimpleLedger.tree][bytesof(key)] &&
+//@           has(ledger.finalityItems.gotItems, key) && ledger.finalityItems.gotItems[key] == result0       [C18]
+//@   ensures !in_removed(ledger.finalityItems, key) && !old(has(ledger.finalityItems.gotItems, key)) && !treehas[ledger.SimpleLedger.tree][bytesof(key)] ==> result1 != nil   [C18]
+//@   ensures result1 != nil ==> result0 == nil && (forall k :: has(ledger.finalityItems.gotItems, k) == old(has(ledger.finalityItems.gotItems, k)))   [C18]
+//@   ensures result1 == nil ==> result0 != nil && itemkey[result0] == key                                    [C18]
+
+//@ func (ledger *FinalityLedger[T]) GetFinality(key)
+//@   sameas (*FinalityLedger).getFinality
+
+//@ func (ledger *FinalityLedger[T]) SetFinality(item)
+//@   nopanic
+//@   requires wf_final(ledger) && item != nil
+//@   modifies mapof(ledger.finalityItems.gotItems), mapof(ledger.finalityItems.updatedItems)
+//@   ensures result == nil                                                                                  [C18]
+//@   ensures has(ledger.finalityItems.updatedItems, itemkey[item]) && ledger.finalityItems.updatedItems[itemkey[item]] == item   [C18]
+//@   ensures has(ledger.finalityItems.gotItems, itemkey[item]) && ledger.finalityItems.gotItems[itemkey[item]] == item           [C18]
+//@   ensures others_same(ledger.finalityItems, itemkey[item])                                               [C18]
+
+//@ func (ledger *FinalityLedger[T]) CancelSetFinality(key)
+//@   nopanic
+//@   requires wf_final(ledger)
+//@   modifies mapof(ledger.finalityItems.gotItems), mapof(ledger.finalityItems.updatedItems)
+//@   ensures result == nil && !has(ledger.finalityItems.updatedItems, key) && !has(ledger.finalityItems.gotItems, key)   [C18]
+//@   ensures others_same(ledger.finalityItems, key)                                                         [C18]
+
+//@ func (ledger *FinalityLedger[T]) DelFinality(key)
+//@   nopanic
+//@   requires wf_final(ledger) && keyed(ledger.finalityItems) && keyed(ledger.SimpleLedger.cachedItems)
+//@   modifies mapof(ledger.finalityItems.gotItems), mapof(ledger.finalityItems.updatedItems), ledger.finalityItems.removedKeys, elems(ledger.finalityItems.removedKeys),
+//@            mapof(ledger.SimpleLedger.cachedItems.gotItems), mapof(ledger.SimpleLedger.cachedItems.updatedItems), ledger.SimpleLedger.cachedItems.removedKeys, elems(ledger.SimpleLedger.cachedItems.removedKeys), itemkey, itemenc
+//@   allocates LedgerKeyList
+//@   ensures wf_final(ledger) && items_same() && others_same(ledger.finalityItems, key) && others_same(ledger.SimpleLedger.cachedItems, key)   [C18]
+//@   ensures result1 == nil ==> result0 != nil && !has(ledger.finalityItems.gotItems, key) && !has(ledger.finalityItems.updatedItems, key) && in_removed(ledger.finalityItems, key)   [C18]
+//@   ensures result1 != nil ==> result0 == nil && removed_same(ledger.finalityItems) && (forall k :: has(ledger.finalityItems.updatedItems, k) == old(has(ledger.finalityItems.updatedItems, k)))   [C18]
+
+//@ func (ledger *FinalityLedger[T]) CancelDelFinality(key)
+//@   nopanic
+//@   requires wf_final(ledger)
+//@   modifies ledger.finalityItems.removedKeys, elems(ledger.finalityItems.removedKeys)
+//@   ensures result == nil                                                                                  [C18]
+//@   ensures !old(in_removed(ledger.finalityItems, key)) ==> removed_same(ledger.finalityItems)             [C18]
+//@   ensures old(in_removed(ledger.finalityItems, key)) ==> len(ledger.finalityItems.removedKeys) == old(len(ledger.finalityItems.removedKeys)) - 1   [C18]
+
+//@ func (ledger *FinalityLedger[T]) Commit()
+//@   nopanic
+//@   requires wf_final(ledger) && keyed(ledger.finalityItems) && upd_in_got(ledger.finalityItems)
+//@   modifies treehas, treeval, treever, histhas, histval,
+//@            ledger.SimpleLedger.cachedItems.gotItems, ledger.SimpleLedger.cachedItems.updatedItems, ledger.SimpleLedger.cachedItems.removedKeys,
+//@            ledger.finalityItems.updatedItems, ledger.finalityItems.removedKeys, mapof(ledger.finalityItems.gotItems)
+//@   allocates LedgerKeyList
+//@   ensures forall t :: t != ledger.SimpleLedger.tree ==> treehas[t] == old(treehas[t]) && treeval[t] == old(treeval[t]) && treever[t] == old(treever[t])   [C18]
+//@   ensures result2 == nil ==> result1 == old(treever[ledger.SimpleLedger.tree]) + 1 && treever[ledger.SimpleLedger.tree] == result1   [C18]
+//@   ensures result2 == nil ==> histhas[ledger.SimpleLedger.tree][result1] == treehas[ledger.SimpleLedger.tree] && histval[ledger.SimpleLedger.tree][result1] == treeval[ledger.SimpleLedger.tree]   [C18]
+//@   ensures result2 == nil ==> (forall v :: v != result1 ==> histhas[ledger.SimpleLedger.tree][v] == old(histhas[ledger.SimpleLedger.tree][v]) && histval[ledger.SimpleLedger.tree][v] == old(histval[ledger.SimpleLedger.tree][v]))   [C18]
+//@   ensures result2 == nil ==> (forall k :: old(has(ledger.finalityItems.updatedItems, k)) ==>
+//@           treehas[ledger.SimpleLedger.tree][bytesof(k)] && treeval[ledger.SimpleLedger.tree][bytesof(k)] == itemenc[old(ledger.finalityItems.updatedItems[k])])   [C18]
+//@   ensures result2 == nil ==> (forall c :: !old(has(ledger.finalityItems.updatedItems, key32(c))) || bytesof(key32(c)) != c ==>
+//@           treehas[ledger.SimpleLedger.tree][c] == (old(treehas[ledger.SimpleLedger.tree][c]) && !old(removed_bytes(ledger.finalityItems, c))) &&
+//@           treeval[ledger.SimpleLedger.tree][c] == old(treeval[ledger.SimpleLedger.tree][c]))                [C18]
+//@   ensures result2 == nil ==> wf_final(ledger) && (forall k :: !has(ledger.SimpleLedger.cachedItems.gotItems, k) && !has(ledger.SimpleLedger.cachedItems.updatedItems, k)) && ledger.SimpleLedger.cachedItems.removedKeys == nil   [C18,C06]
+//@   ensures result2 == nil ==> (forall k :: !has(ledger.finalityItems.updatedItems, k)) && ledger.finalityItems.removedKeys == nil   [C18]
+//@   ensures result2 == nil ==> (forall k :: old(has(ledger.finalityItems.updatedItems, k)) ==> has(ledger.finalityItems.gotItems, k) && ledger.finalityItems.gotItems[k] == old(ledger.finalityItems.updatedItems[k]))   [C18]
+//@   ensures result2 == nil ==> (forall k :: !old(has(ledger.finalityItems.updatedItems, k)) ==> has(ledger.finalityItems.gotItems, k) == old(has(ledger.finalityItems.gotItems, k)) && ledger.finalityItems.gotItems[k] == old(ledger.finalityItems.gotItems[k]))   [C18]
+//@   loop 0: modifies treehas
+//@   loop 0: invariant forall t :: t != ledger.SimpleLedger.tree ==> treehas[t] == old(treehas[t])
+//@   loop 0: invariant forall c :: treehas[ledger.SimpleLedger.tree][c] == (old(treehas[ledger.SimpleLedger.tree][c]) &&
+//@           !(exists j :: 0 <= j && j <= rangeindex#0 && bytesof(ledger.finalityItems.removedKeys[j]) == c))
+//@   loop 1: modifies elems(keys)
+//@   loop 1: invariant keys == nil || loopfresh(keys)
+//@   loop 1: invariant forall k :: visited(k) <==> (exists i :: 0 <= i && i < len(keys) && keys[i] == k)
+//@   loop 1: invariant forall k :: visited(k) ==> has(ledger.finalityItems.updatedItems, k)
+//@   loop 2: modifies treehas, treeval
+//@   loop 2: invariant forall t :: t != ledger.SimpleLedger.tree ==> treehas[t] == old(treehas[t]) && treeval[t] == old(treeval[t])
+//@   loop 2: invariant forall i :: 0 <= i && i <= rangeindex#1 ==> treehas[ledger.SimpleLedger.tree][bytesof(keys[i])] &&
+//@           treeval[ledger.SimpleLedger.tree][bytesof(keys[i])] == itemenc[ledger.finalityItems.updatedItems[keys[i]]]
+//@   loop 2: invariant forall c :: (forall i :: 0 <= i && i <= rangeindex#1 ==> bytesof(keys[i]) != c) ==>
+//@           treehas[ledger.SimpleLedger.tree][c] == (old(treehas[ledger.SimpleLedger.tree][c]) && !old(removed_bytes(ledger.finalityItems, c))) &&
+//@           treeval[ledger.SimpleLedger.tree][c] == old(treeval[ledger.SimpleLedger.tree][c])
+//@   loop 2: invariant forall k :: has(ledger.finalityItems.updatedItems, k) <==> (exists i :: 0 <= i && i < len(keys) && keys[i] == k)
